@@ -316,6 +316,7 @@ def run(ctx):
         ctx.machinery("Opaque.tla emitted %d cases with <= 2 lexemes, expected %d" % (nb, expect))
     t1 = time.time()
     lang = W.LANGS[ctx.seed % len(W.LANGS)]
+    cases.sort(key=lambda c: (c["tag"], c["ctx"], c["body"]))     # TLC's BFS order depends on thread timing
     indexed = list(enumerate(cases))
     random.Random(ctx.seed).shuffle(indexed)
     jobs = [(i, lang if quick else W.LANGS[(ctx.seed + i) % len(W.LANGS)], ch, ctx.scratch,
